@@ -9,6 +9,7 @@ import jsongen
 from common import Case, text_tokens
 
 SIM_HOSTS = 6
+_CAN443 = {}
 _case_counter = itertools.count(1)
 
 
@@ -66,6 +67,20 @@ class World:
 
     def host(self, k):
         return "127.0.0.%d:%d" % (k + 1, self.base + k)
+
+    def host443(self):
+        """the host reached on the default port (no port in its URLs), or None when port 443 cannot be bound here"""
+        addr = "127.1.%d.%d" % ((self.base >> 8) & 255, self.base & 255)
+        if self.base not in _CAN443:
+            s = socket.socket()
+            try:
+                s.bind((addr, 443))
+                _CAN443[self.base] = True
+            except OSError:
+                _CAN443[self.base] = False
+            finally:
+                s.close()
+        return addr if _CAN443[self.base] else None
 
     def canary(self):
         return "127.0.0.1:%d" % (self.base + SIM_HOSTS)
